@@ -60,6 +60,7 @@ type Scenario struct {
 	Early      bool   `json:"early_shutdown,omitempty"` // a Shutdown issued before the server is started
 	FailStart  string `json:"fail_start,omitempty"`     // a ListenAndServe that cannot succeed (bogus network / TLS without certificate) is attempted first
 	UDPSock    bool   `json:"udp_sock,omitempty"`       // udp: the server runs on a UDP socket (SessionUDP branch) where the build has that seam
+	PostYield  bool   `json:"post_yield,omitempty"`     // the return of every transport operation is a scheduling point of its own
 	Spare      bool   `json:"spare_listener,omitempty"` // a udp server is also given a Listener it does not serve on
 	ShutKind   string `json:"shut_kind"`                // plain | ctx
 	ShutAfter  int    `json:"shut_after"`
@@ -130,6 +131,8 @@ func Gen(seed uint64, tier string) any {
 		sc.FailStart = core.Pick(r, "bogus", "tcp-tls", "sockopt", "noreader")
 	}
 	sc.UDPSock = sc.Transport == "udp" && core.Chance(r, 50)
+	sc.PostYield = core.Chance(r, 35)
+
 	sc.Spare = sc.Transport == "udp" && core.Chance(r, 15)
 	sc.ShutKind = core.Pick(r, "plain", "plain", "ctx")
 	sc.ShutAfter = r.IntN(10 + 40*total)
@@ -810,6 +813,7 @@ func runIn(sc *Scenario, res *core.Result, verbose bool) {
 	kernel.SetCurrent(k)
 	defer kernel.SetCurrent(nil)
 	n := simnet.New(k)
+	n.PostYield = sc.PostYield
 	n.Stream = simnet.StreamLink{MinDelay: time.Duration(sc.DelayMs) * time.Millisecond, Jitter: time.Duration(sc.JitterMs) * time.Millisecond, SegMode: sc.SegMode, ShortRead: sc.ShortRead}
 	n.Dgram = simnet.DgramLink{MinDelay: time.Duration(sc.DelayMs) * time.Millisecond, Jitter: time.Duration(sc.JitterMs) * time.Millisecond}
 	n.CloseYields = core.Mode == "instr"
